@@ -292,6 +292,13 @@ func c14TextOptionWords(quick bool) C14Group {
 
 func init() {
 	Registry["C14"] = func(c *Ctx) int {
+		cp := c14ConnPlan(c.Quick())
+		if c.Worker >= 0 {
+			return cp.Worker(c)
+		}
+		if len(c.Args) == 2 && c.Args[0] == "--replay" {
+			return cp.ReplayFile(c, c.Args[1])
+		}
 		groups := RunC14Codec(c.Quick())
 		groups = append(groups, c14TextVsBinary(c.Quick()), c14TextReuse(c.Quick()), c14TextOptionWords(c.Quick()))
 		evals, distinct, viol := 0, 0, 0
@@ -326,6 +333,13 @@ func init() {
 			fmt.Printf("  group %-24s evaluations=%d distinct=%d violations=%d\n", g.Name, g.Evaluations, g.Distinct, len(vs))
 		}
 		c.ReportKnown(known)
+		sres := cp.Master(c)
+		if sres.EngineErr != "" {
+			return EngineError("%s", sres.EngineErr)
+		}
+		viol += sres.Violations
+		evals += int(sres.Total.Executions)
+		per["schedules"] = cp.Coverage(sres, "deviation-bounded schedule DFS (fine mode: every mutex operation of the server is a choice point) of two server threads delivering results to one binary connection of a full node; the frames the client receives must be exactly the results produced for it", c.Quick())
 		if len(samples) == 0 {
 			samples = append(samples, "none")
 		}
